@@ -2021,3 +2021,139 @@ class FunctionFamily(Family):
     def bounded_source(cls, prog, fname):
         return 'calculator/functions', cls.source(), ('all 37 registered names (three letter cases) x all argument lists of length 0..3 over 17 boundary values of every '
                                                       'variant type plus lists of length 4..8, under both operation managers, against a reference written from the statement')
+
+
+DISCOVERY_TEST = r'''package calculator_test
+
+import (
+	"strings"
+	"testing"
+
+	"github.com/pip-services3-gox/pip-services3-expressions-gox/calculator"
+	"github.com/pip-services3-gox/pip-services3-expressions-gox/calculator/variables"
+	"github.com/pip-services3-gox/pip-services3-expressions-gox/mustache"
+	"github.com/pip-services3-gox/pip-services3-expressions-gox/variants"
+)
+
+// C18 (bounded): variable discovery. Every token sequence up to the stated length over an alphabet with identifiers
+// in different letter cases, a call, a string constant and keywords: when the expression is accepted, the reported
+// names are exactly the identifiers not followed by "(" - each once, in order of first occurrence (names differing
+// only in letter case may be merged) - and, with automatic variables on, the default collection has exactly one entry
+// per name compared case-insensitively while the entry and value that were there before are kept. With automatic
+// variables off a missing variable or function is an error that names it. The same discovery law for templates.
+func expected(toks []string) []string {
+	var out []string
+	for i, t := range toks {
+		if t != "a" && t != "A" && t != "b" && t != "f" { continue }
+		if i+1 < len(toks) && toks[i+1] == "(" { continue }
+		out = append(out, t)
+	}
+	return out
+}
+
+// got must be want with duplicates removed, where a duplicate is an exact repeat and may also be a case-variant
+func matches(got, want []string) bool {
+	gi := 0
+	var seen []string
+	for _, w := range want {
+		exact, fold := false, false
+		for _, s := range seen { if s == w { exact = true }; if strings.EqualFold(s, w) { fold = true } }
+		if exact { continue }
+		if gi < len(got) && got[gi] == w { gi++; seen = append(seen, w); continue }
+		if fold { seen = append(seen, w); continue }
+		return false
+	}
+	return gi == len(got)
+}
+
+func TestVerifReplay(t *testing.T) {
+	var cases [][]string
+	var gen func(abc []string, cur []string, n int)
+	gen = func(abc []string, cur []string, n int) { if len(cur) > 0 { cases = append(cases, append([]string{}, cur...)) }; if n == 0 { return }; for _, c := range abc { gen(abc, append(cur, c), n-1) } }
+	gen([]string{"a", "A", "b", "f", "(", ")", "+", ",", "'a'", "NOT", "1"}, nil, @L1@)
+	bad, accepted := 0, 0
+	for _, toks := range cases {
+		expr := strings.Join(toks, " ")
+		c := calculator.NewExpressionCalculator()
+		c.DefaultVariables().Add(variables.NewVariable("B", variants.VariantFromInteger(7)))
+		if c.SetExpression(expr) != nil { continue }
+		accepted++
+		want := expected(toks)
+		var got []string
+		seenVar := map[string]bool{}
+		for _, rt := range c.ResultTokens() {
+			if rt.Type() == 35 && !seenVar[rt.Value().AsString()] { seenVar[rt.Value().AsString()] = true }
+		}
+		// reported names: the parser's list, observed through the variables created for a fresh collection
+		c2 := calculator.NewExpressionCalculator()
+		c2.SetAutoVariables(false)
+		c2.SetExpression(expr)
+		fresh := variables.NewVariableCollection()
+		c2.CreateVariables(fresh)
+		for _, v := range fresh.GetAll() { got = append(got, v.Name()) }
+		var wantFold []string
+		for _, w := range want { dup := false; for _, s := range wantFold { if strings.EqualFold(s, w) { dup = true } }; if !dup { wantFold = append(wantFold, w) } }
+		if len(got) != len(wantFold) { t.Errorf("%q: variables created %v, identifiers in variable position %v", expr, got, want); bad++ } else {
+			for i := range got { if !strings.EqualFold(got[i], wantFold[i]) { t.Errorf("%q: variables created %v, expected (order of first occurrence) %v", expr, got, wantFold); bad++; break } }
+		}
+		for _, w := range want { if !seenVar[w] { t.Errorf("%q: identifier %s in variable position is not compiled as a variable", expr, w); bad++ } }
+		for n := range seenVar { ok := false; for _, w := range want { if w == n { ok = true } }; if !ok { t.Errorf("%q: %s is compiled as a variable but is not an identifier in variable position", expr, n); bad++ } }
+		// default collection: one entry per name case-insensitively; the old entry B=7 is kept with its value
+		dv := c.DefaultVariables()
+		all := dv.GetAll()
+		if len(all) == 0 || all[0].Name() != "B" || all[0].Value().AsInteger() != 7 { t.Errorf("%q: the entry B=7 that was there before was not kept first", expr); bad++ }
+		for i := range all { for j := i + 1; j < len(all); j++ { if strings.EqualFold(all[i].Name(), all[j].Name()) { t.Errorf("%q: default variables hold %s and %s", expr, all[i].Name(), all[j].Name()); bad++ } } }
+		for _, w := range want { if dv.FindByName(w) == nil { t.Errorf("%q: no default variable for %s", expr, w); bad++ } }
+		if len(all) != len(wantFold)+1 && !(len(all) == len(wantFold) && func() bool { for _, w := range wantFold { if strings.EqualFold(w, "B") { return true } }; return false }()) {
+			t.Errorf("%q: %d default variables for names %v (+B)", expr, len(all), wantFold); bad++
+		}
+		// missing names are errors that name them
+		if len(want) > 0 {
+			_, err := c2.EvaluateUsingVariables(variables.NewVariableCollection())
+			if err == nil { t.Errorf("%q: evaluated without its variables", expr); bad++ }
+		}
+		if bad > 8 { t.Fatalf("stopping after %d failures", bad) }
+	}
+	if accepted == 0 { t.Fatalf("vacuous: nothing accepted") }
+	c := calculator.NewExpressionCalculator()
+	c.SetAutoVariables(false)
+	c.SetExpression("1 + Abc")
+	if _, err := c.Evaluate(); err == nil || !strings.Contains(err.Error(), "Abc") { t.Errorf("missing variable Abc: %v", err) }
+	c.SetExpression("1 + Gh(2)")
+	if _, err := c.Evaluate(); err == nil || !strings.Contains(err.Error(), "Gh") { t.Errorf("missing function Gh: %v", err) }
+	// templates: variables are the names in variable / section position, never the section words
+	var tcases [][]string
+	cases = nil
+	gen([]string{"x ", "{{a}}", "{{{B}}}", "{{#a}}", "{{/a}}", "{{^c}}", "{{/c}}", "{{#if d}}", "{{/if}}", "{{#unless a}}", "{{/unless}}", "{{! if}}"}, nil, @L2@)
+	tcases = cases
+	names := map[string]string{"{{a}}": "a", "{{{B}}}": "B", "{{#a}}": "a", "{{^c}}": "c", "{{#if d}}": "d", "{{#unless a}}": "a"}
+	for _, toks := range tcases {
+		tpl := strings.Join(toks, "")
+		m := mustache.NewMustacheTemplate()
+		var err error
+		func() { defer func() { if r := recover(); r != nil { t.Errorf("%q: SetTemplate panicked: %v", tpl, r); bad++; err = nil } }(); err = m.SetTemplate(tpl) }()
+		if err != nil { continue }
+		var want []string
+		for _, tk := range toks { if n, ok := names[tk]; ok { dup := false; for _, w := range want { if strings.EqualFold(w, n) { dup = true } }; if !dup { want = append(want, n) } } }
+		dv := m.DefaultVariables()
+		if len(dv) != len(want) { t.Errorf("%q: default variables %v, names in the template %v", tpl, dv, want); bad++ }
+		for _, w := range want { found := false; for k := range dv { if strings.EqualFold(k, w) { found = true } }; if !found { t.Errorf("%q: no default variable for %s (%v)", tpl, w, dv); bad++ } }
+		if bad > 8 { t.Fatalf("stopping after %d failures", bad) }
+	}
+}
+'''
+
+
+@family(r'ExpressionCalculator\)\.(CreateVariables|SetExpression|SetOriginalTokens)')
+class DiscoveryFamily(Family):
+    @classmethod
+    def source(cls, l1=5, l2=4):
+        return DISCOVERY_TEST.replace('@L1@', str(l1)).replace('@L2@', str(l2))
+
+    def test_source(self, vals):
+        return 'calculator', self.source()
+
+    @classmethod
+    def bounded_source(cls, prog, fname):
+        return 'calculator', cls.source(), ('all token sequences up to length 5 over {a,A,b,f,(,),+,",",\'a\',NOT,1} and all template lexeme sequences up to length 4 over 12 lexemes: '
+                                            'reported names and created variables against the identifiers in variable position')
